@@ -130,6 +130,13 @@ class Shard:
                 open_.pop(k, None)
         return list(open_.values())
 
+    def loghead(self, n=6000):
+        try:
+            with open(self.log, "rb") as f:
+                return f.read(n).decode("utf-8", "replace")
+        except Exception:
+            return ""
+
     def logtail(self, n=16000):
         try:
             with open(self.log, "rb") as f:
@@ -196,7 +203,16 @@ class Shard:
             return self._maybe_restart(True)
         if inf:
             m = re.search(r"VERIF-FATAL ([^\n]*)", tail)
-            if not m and crash_owner(self.logtail(400000)) == "harness":
+            owner = "" if m else crash_owner(self.logtail(400000))
+            if owner == "runtime":
+                for r in inf:
+                    self.synthetic.append({"t": "E", "family": r["family"], "idx": r["idx"], "params": r.get("params"),
+                                           "res": {"verdict": "inconclusive", "nontrivial": False,
+                                                   "why": "the Go runtime itself crashed (raw signal inside runtime code, no Go-level panic) while this case ran: "
+                                                          "a toolchain problem under -race/synctest, not attributable to corebgp",
+                                                   "witness": {"exit": rc, "output_head": self.loghead(6000)}}})
+                return self._maybe_restart(True)
+            if owner == "harness":
                 # the panic is in harness code: an infrastructure failure, never a verdict
                 self.synthetic.append({"t": "X", "why": "HARNESS PANIC in case %s/%s (not a property verdict)" % (inf[0]["family"], inf[0]["idx"]), "tail": tail[-6000:]})
                 self.done = True
@@ -235,6 +251,12 @@ class Shard:
 
 def crash_owner(text):
     """'corebgp' when the panicking goroutine's innermost non-runtime frame is in corebgp, 'harness' when it is in verif/"""
+    # a raw signal taken inside the Go runtime itself (no Go-level "panic:" line, header
+    # "SIGSEGV: segmentation violation / PC=... m=... sigcode=...") is a toolchain crash:
+    # corebgp has no unsafe code that could corrupt runtime state
+    m0 = re.search(r"^(SIGSEGV|SIGBUS|SIGILL): [^\n]*\nPC=0x[0-9a-f]+ m=\d+ sigcode=", text, re.M)
+    if m0 and "panic:" not in text[:m0.start() + 200]:
+        return "runtime"
     i = text.find("\npanic:")
     if i < 0:
         i = text.find("panic:")
